@@ -664,7 +664,7 @@ int main(int argc, char** argv)
 			if (!bed.fail.empty()) { outLine += " !ORACLE-FAIL:" + bed.fail; ++failures; }
 		}
 		if (g_live != 0) { outLine += " !ORACLE-FAIL:memory leak (" + std::to_string(g_live) + " live blocks)"; g_live = 0; }
-		std::puts(outLine.c_str()); ++cases;
+		std::puts(outLine.c_str()); std::fflush(stdout); ++cases;
 	}
 	std::fprintf(stderr, "variant=%d cases=%ld oracle_failures=%ld injected_faults=%ld allocations=%ld\n", VARIANT, cases, failures, g_faults, g_allocs);
 	return 0;
